@@ -120,7 +120,8 @@ def generate(cls, rng):
     init = dict(clock=rng.choice(CLOCKS), tz=rng.choice(TZ_SETTINGS))
     if cls == "config":
         ops = []
-        for _ in range(rng.randrange(6, 40)):
+        from dsim import depth as DP
+        for _ in range(rng.randrange(6, DP.pick(40, 120))):
             r = rng.random()
             if r < 0.25:
                 ops.append(gen_world(rng))
